@@ -142,8 +142,10 @@ def chk_case(inp, c):
     c.cell(*gen.sys_cells(inp), "model=" + model, "W=" + inp["wkind"])
     for k in set(inp["classes"]):
         c.cell("target=" + k)
-    est = c.call(gen.make_estimator, dreye, inp, w=(1.0 if inp["W"] is None else inp["W"]),
-                 _where="ReceptorEstimator+register_system")
+    est = inp.get("_live_estimator")
+    if est is None:
+        est = c.call(gen.make_estimator, dreye, inp, w=(1.0 if inp["W"] is None else inp["W"]),
+                     _where="ReceptorEstimator+register_system")
     bs = inp.get("bs", 1)
     c.cell("batch=" + ("1" if bs == 1 else "many"))
     out = c.call(est.fit, B.copy(), model=model, batch_size=bs, _where=f"ReceptorEstimator.fit(model={model})")
@@ -218,7 +220,12 @@ def chk_case(inp, c):
             c.require(dev <= tol_r, f"{model}: an in-gamut target is reproduced", mechanism=mech(f"{model}-ingamut-not-reproduced", r, dev / tol_r),
                       row=r, dev=dev, baseline_kind=inp["basekind"])
     # all three models agree in gamut
-    rows_in = [r for r in range(N) if inp["classes"][r] == "in"]
+    # (in-gamut rows are decided by the oracle, not by the generator's label: the system may have been re-registered)
+    rows_in = []
+    for r in range(N):
+        _xo, _eo = oracles.bvls(Mt, c0, lbv, ubv, B[r], w)
+        if _xo is not None and _eo <= 1e-9 * (1 + np.linalg.norm(B[r])):
+            rows_in.append(r)
     if rows_in:
         c.cell("agree-in-gamut")
         outg = c.call(est.fit, B[rows_in].copy(), model="gaussian", _where="ReceptorEstimator.fit(model=gaussian)")
@@ -231,4 +238,21 @@ def chk_case(inp, c):
     c.note("solver_status", statuses)
 
 
-M.add("objective_vs_oracle", gen_case, chk_case, weight=1, min_held=100)
+M.add("objective_vs_oracle", gen_case, chk_case, weight=5, min_held=100)
+
+
+def gen_rereg(rng, i):
+    s = gen_case(rng, i)
+    s["rereg_seed"] = int(rng.integers(0, 2 ** 31 - 1))
+    s["wkind"], s["W"] = "none", None
+    return s
+
+
+def chk_rereg(inp, c):
+    """The models fit the CURRENTLY registered system: fit, change one registration on the same estimator (never a matrix
+    K: the property quantifies over scalar/vector K), fit again and judge the second answer against the new values."""
+    gen.rereg_check(c, dreye, inp, lambda est: (est.fit(inp["B"], model=inp["model"]), est.gamut_l1_scaling(inp["B"] + 1.0)),
+                    chk_case, matrix_ok=False)
+
+
+M.add("objective_after_reregistration", gen_rereg, chk_rereg, weight=1, min_held=20)
